@@ -4,16 +4,11 @@
    A change of an arm in the source changes the generated table and breaks one of these proofs. *)
 From Coq Require Import List Arith ZArith Bool String.
 Import ListNotations.
-From Acts.Gen Require Import GenState GenUpdate.
+From Acts.Gen Require Import GenState GenUpdate GenDoAction.
 From Acts.Model Require Import Engine.
-From Acts.Proofs Require Import FinalProofs.
+From Acts.Proofs Require Import FinalProofs ActionNames.
 Open Scope string_scope.
 
-Definition ev_name (a : action) : string :=
-  match a with
-  | ANext => "Next" | ASubmit => "Submit" | ARemove => "Remove" | ASkip => "Skip" | AAbort => "Abort"
-  | AError _ => "Error" | ABack _ => "Back" | ACancel => "Cancel" | APush _ => "Push"
-  end.
 Definition arm_of (n : string) : option arm := find (fun r => String.eqb (a_event r) n) update_arms.
 
 Definition n_skip := "Skip". Definition n_error := "Error". Definition n_self := "self". Definition n_parent := "parent".
@@ -75,12 +70,6 @@ Qed.
 Lemma no_self_state a r : arm_of (ev_name a) = Some r -> a_self r = None -> closing a = None \/ a = AAbort.
 Proof. intros H K. destruct a; vm_compute in H; inversion H; subst r; cbn [a_self] in K; try discriminate K; auto. Qed.
 
-(* Runtime::return_to_act: the action sent to the calling act for a child that ended in state s *)
-Definition return_event (s : TaskState) : string :=
-  match find (fun p => TaskState_beq (fst p) s) return_arms with Some p => snd p | None => return_default end.
-Lemma return_map_match s code : ev_name (return_action s code) = return_event s.
-Proof. destruct s; reflexivity. Qed.
-
 (* Process::do_action: the rejections in front of Task::update.  The list and order of the checks come from the
    source (gen/GenUpdate.v `do_action_checks`); what each check means is written here. *)
 Close Scope string_scope.
@@ -134,27 +123,3 @@ Proof.
   rewrite map_map. reflexivity.
 Qed.
 
-(* Runtime's on_task handler: the order store write -> lifecycle hooks -> gate -> message, and the gate itself, are
-   regenerated from runtime.rs; the model's `emit` is written in that order (upsert, hooks, then the message of the
-   state the hooks left) and its gate `msg_allowed` is the gate of the table *)
-Open Scope string_scope.
-Definition state_pred (n : string) : TaskState -> bool :=
-  if String.eqb n "is_pending" then is_pending else if String.eqb n "is_running" then is_running
-  else if String.eqb n "is_completed" then is_completed else if String.eqb n "is_created" then is_created
-  else if String.eqb n "is_none" then is_none else if String.eqb n "is_error" then is_error
-  else fun _ => true.
-Definition model_on_task_order : list string := ["upsert"; "run_hooks"; "gate"; "create_message"; "emit_message"].
-Close Scope string_scope.
-Definition gate_of_source (s : TaskState) (silent : bool) : bool :=
-  forallb (fun n => negb (state_pred n s)) on_task_gate_not && negb silent.
-Lemma gate_match e i : msg_allowed e i = gate_of_source (st e i) (t_silent (tk e i)).
-Proof. unfold msg_allowed, gate_of_source. destruct (st e i), (t_silent (tk e i)); reflexivity. Qed.
-Lemma order_match : on_task_order = model_on_task_order.
-Proof. reflexivity. Qed.
-(* the model's emit: the message is decided on, and built from, the state after the store write and the hooks *)
-Lemma emit_message_after_hooks f e i :
-  exists e2, forall e3, e3 = (if msg_allowed e2 i then add_ev e2 (EMsg i (st e2 i) (inputs e2 i) (outputs e2 i)) else e2) ->
-    emit (S f) e i = match kind e i with
-                     | KWorkflow => if is_completed (st e3 i) then add_ev (with_pstate e3 (st e3 i)) (EProc (st e3 i) (outputs e3 i)) else e3
-                     | _ => e3 end.
-Proof. eexists. intros e3 He3. subst e3. reflexivity. Qed.
